@@ -345,14 +345,9 @@ def specOut (n : Node) (inp : Edge) : Option Edge :=
   | .where_ e, .stream ps => some (.stream (specWhere e ps))
   | .where_ e, .batch bs => some (.batch (bs.map (fun b => { b with points := b.points.filter (fun p => evalPred e p.fields p.tags = some true) })))
   | .default_ f t, .stream ps => some (.stream (ps.map (specDefault f t)))
-  | .default_ f t, .batch bs => some (.batch (bs.map (fun b =>
-      { b with tags := (specDefaultFT f t [] b.tags).2,
-               points := b.points.map (fun p => let r := specDefaultFT f t p.fields p.tags; { p with fields := r.1, tags := r.2 }) })))
+  | .default_ f t, .batch bs => some (.batch (bs.map (specDefaultBatch f t)))
   | .delete f t, .stream ps => some (.stream (ps.map (specDelete f t)))
-  | .delete f t, .batch bs => some (.batch (bs.map (fun b =>
-      { b with tags := tabulate (akeys b.tags) (specDeleteAt t b.tags),
-               points := b.points.map (fun p => { p with fields := tabulate (akeys p.fields) (specDeleteAt f p.fields),
-                                                         tags := tabulate (akeys p.tags) (specDeleteAt t p.tags) }) })))
+  | .delete f t, .batch bs => some (.batch (bs.map (specDeleteBatch f t)))
   | .shift d, .stream ps => some (.stream (ps.map (specShift d)))
   | .shift d, .batch bs => some (.batch (bs.map (fun b => { b with tmax := b.tmax.map (· + d), points := b.points.map (fun p => { p with time := p.time + d }) })))
   | .groupBy c, .stream ps => some (.stream (ps.map (specGroupBy c)))
